@@ -4,6 +4,9 @@ import (
 	"context"
 	"errors"
 	"fmt"
+	"net"
+	"os"
+	"syscall"
 	"testing"
 	"testing/synctest"
 	"time"
@@ -29,6 +32,22 @@ type wfailT struct {
 }
 
 var errScriptedWrite = errors.New("scripted write error")
+
+// writeErrOf: the errors a datagram socket's write fails with: an expired write deadline, no buffer space, a firewall
+// rule, no route -- and an error of the harness' own
+func writeErrOf(k int) error {
+	switch k % 5 {
+	case 0:
+		return errScriptedWrite
+	case 1:
+		return &net.OpError{Op: "write", Net: "udp", Err: os.ErrDeadlineExceeded}
+	case 2:
+		return &net.OpError{Op: "write", Net: "udp", Err: os.NewSyscallError("sendto", syscall.ENOBUFS)}
+	case 3:
+		return &net.OpError{Op: "write", Net: "udp", Err: os.NewSyscallError("sendto", syscall.EPERM)}
+	}
+	return &net.OpError{Op: "write", Net: "udp", Err: os.NewSyscallError("sendto", syscall.ENETUNREACH)}
+}
 
 func judgeWFail(r *mon.Rec, t *testing.T, sc wfailT) {
 	r.Current(sc)
@@ -56,7 +75,7 @@ func judgeWFail(r *mon.Rec, t *testing.T, sc wfailT) {
 			}
 			conn.WriteErr = func(k int) error {
 				if k == sc.FailTry {
-					return errScriptedWrite
+					return writeErrOf(sc.Cfg + sc.Burst)
 				}
 				return nil
 			}
